@@ -427,6 +427,7 @@ CALLEES = {"protocols::valve::query": "valveQuery",
            "games::minecraft::protocol::query_java": "mcQueryJava", "games::minecraft::protocol::query_bedrock": "mcQueryBedrock",
            "games::minecraft::protocol::query_legacy_specific": "mcQueryLegacySpecific", "games::minecraft::protocol::query": "mcQueryAuto",
            "games::eco::query_with_timeout_and_extra_settings": "ecoQuery",
+           "games::eco::query_with_timeout": "ecoQueryWithTimeout",
            "games::query::query_with_timeout_and_extra_settings": "generic"}
 TOGGLES = {"Skip": "skip", "Try": "try_", "Enforce": "enforce"}
 # features the harness builds the library with (harness/Cargo.toml) plus the library's defaults
@@ -1143,15 +1144,57 @@ def gen_mod_arms(X_):
     return out, game_default
 
 
+def gen_valve_mod_default(X_):
+    """the gathering settings `valve::game_query_mod!` gives a module that names none (its 4-parameter rule)"""
+    rel = "protocols/valve/mod.rs"
+    src = X_.csrc(rel)
+    m = re.search(r"macro_rules!\s*game_query_mod\s*\{", src)
+    if not m:
+        raise ArmError(f"{rel}: macro game_query_mod! not found")
+    blk = balanced(src, m.end() - 1, "{", "}")
+    dm = re.search(r"game_query_mod!\(\s*\$mod_name,\s*\$pretty_name,\s*\$engine,\s*\$default_port,\s*([^;]*?)\s*\)\s*;", blk)
+    if len(re.findall(r"\(\$mod_name:\s*ident,[^)]*\)\s*=>", blk)) != 2 or not dm:
+        raise ArmError(f"{rel}: macro game_query_mod!: expected a 4-parameter rule delegating to the 5-parameter rule")
+    e = P(tokenize(dm.group(1)), "game_query_mod! default gathering settings").expr()
+    return dict(term=tr(e, "valve::GatheringSettings", Ctx(X_, rel, {}), "game_query_mod! default gathering settings"), text=show(e))
+
+
+def gen_hand_wrappers(X_):
+    """`query(address, port)` of the hand-written modules savage2 / theship / ffow / jc2m / eco (and eco's
+    `query_with_timeout`): bodies that are one call of the module's fuller function"""
+    out = []
+    for mod, fns in (("savage2", ["query"]), ("theship", ["query"]), ("ffow", ["query"]), ("jc2m", ["query"]),
+                     ("eco", ["query", "query_with_timeout"])):
+        rel = f"games/{mod}/protocol.rs"
+        src = strip_macros(X_.csrc(rel))
+        for fn in fns:
+            w = f"{rel}: fn {fn}"
+            _, ps, _, btext, _ = the_fn(src, fn, w)
+            want = [("address", "&IpAddr"), ("port", "Option<u16>")] + ([("timeout_settings", "&Option<TimeoutSettings>")] if fn == "query_with_timeout" else [])
+            if ps != want:
+                raise ArmError(f"{w}: parameters are {ps}, expected {want}")
+            b = unblock(parse_block_text(btext, w))
+            if not (b[0] == "call" and b[1][0] == "path" and len(b[1][1]) == 1):
+                raise ArmError(f"{w}: the body is not one call of a function of the same module: `{show(b)[:100]}`")
+            callee = b[1][1][0]
+            a = translate_call(X_, Ctx(X_, rel, dict(want)), {callee: ["games", mod, callee]}, b, ("wild",), "_",
+                               f"games::{mod}::{fn} => {show(b)}", [], w)
+            out.append(dict(module=mod, name=fn, callee=a["callee"], path=a["path"], args=a["args"], text=a["text"]))
+    return out
+
+
 def gen_arms(V, src_dir, gen_dir, csrc, write_if_changed):
     """writes Gen/Arms.lean and .work/arms.json; returns the list of errors (empty = translated)"""
     X_ = X(src_dir, csrc)
     errors = []
     arms, skipped, wrappers, convs, defaults, into_extras, mod_arms, game_default = [], [], [], [], [], [], [], None
+    mod_default, hand = None, []
     try:
         arms, skipped, wrappers = gen_arms_data(X_)
         convs, defaults, into_extras = gen_convs(X_)
         mod_arms, game_default = gen_mod_arms(X_)
+        mod_default = gen_valve_mod_default(X_)
+        hand = gen_hand_wrappers(X_)
         missing = X_.need_conv - {c["name"] for c in convs}
         if missing:
             raise ArmError(f"conversions used by an arm but not found: {sorted(missing)}")
@@ -1161,6 +1204,7 @@ def gen_arms(V, src_dir, gen_dir, csrc, write_if_changed):
         errors.append(f"arms: translator error {type(e).__name__}: {e}")
     if errors:
         arms, skipped, wrappers, convs, defaults, into_extras, mod_arms, game_default = [], [], [], [], [], [], [], None
+        mod_default, hand = None, []
     L = ["/- GENERATED by tools/xlate.py (xlate_arms.gen_arms) from crates/lib/src on every run — do not edit.",
          "   games/query.rs: one `Arm` per leaf of the nested `match &game.protocol` of query_with_timeout_and_extra_settings",
          "   (composed pattern, callee, `let`s in scope, one term per argument), the two wrappers; the conversion impls",
@@ -1195,6 +1239,14 @@ def gen_arms(V, src_dir, gen_dir, csrc, write_if_changed):
     L += ["]", "", "/-- the settings whose `into_extra()` the `game!` macro gives a definition that names none -/",
           f"-- {game_default['text']}" if game_default else "-- (not translated)",
           f"def gameDefaultSettings : Option Tm := {'some ' + lean_tm(game_default['term']) if game_default else 'none'}",
+          "", "/-- the gathering settings `valve::game_query_mod!` gives a module that names none -/",
+          f"-- {mod_default['text']}" if mod_default else "-- (not translated)",
+          f"def valveModDefaultSettings : Option Tm := {'some ' + lean_tm(mod_default['term']) if mod_default else 'none'}",
+          "", "/-- `query` of the hand-written modules (and eco's `query_with_timeout`): (module, function, callee, arguments) -/",
+          "def handWrappers : List (String × String × Callee × List Tm) := [",
+          ",\n".join(f"  -- {h['text']}\n  ({lean_string(h['module'])}, {lean_string(h['name'])}, .{h['callee']}, [" + ", ".join(lean_tm(t) for t in h["args"]) + "])"
+                     for h in hand),
+          "]",
           "", "end Gd.Gen.Arms", ""]
     write_if_changed(os.path.join(gen_dir, "Arms.lean"), "\n".join(L))
     os.makedirs(os.path.join(V, ".work"), exist_ok=True)
@@ -1203,6 +1255,7 @@ def gen_arms(V, src_dir, gen_dir, csrc, write_if_changed):
         return {k: v for k, v in a.items() if k in ("callee", "path", "file", "params", "let_texts", "arg_texts", "text", "pattern", "family", "version", "post", "name", "ty", "cfg")}
     json.dump(dict(translated=not errors, errors=errors, arms=[plain(a) for a in arms], skipped=skipped, wrappers=[plain(w) for w in wrappers],
                    convs=[plain(c) for c in convs], defaults=[plain(c) for c in defaults], into_extras=[plain(c) for c in into_extras],
-                   mod_arms=[plain(a) for a in mod_arms], game_default=game_default["text"] if game_default else None),
+                   mod_arms=[plain(a) for a in mod_arms], game_default=game_default["text"] if game_default else None,
+                   valve_mod_default=mod_default["text"] if mod_default else None, hand_wrappers=[plain(h) for h in hand]),
               open(os.path.join(V, ".work", "arms.json"), "w"), indent=1)
     return errors
